@@ -16,7 +16,7 @@ from __future__ import annotations
 import vlib.boot  # noqa: F401
 from vlib.boot import B, drive
 from vlib.ob import obligation, smt_obligation
-from vlib.world import EVA, StubPolicy, world_ab, world_ab_valid
+from vlib.world import EVA, StubPolicy, pick, world_ab, world_ab_valid
 from vlib import h_retry as H
 
 import workflows.context.internal_context as ic_mod
@@ -69,8 +69,18 @@ OUTSIDE = [
 
 NMAX = B(6, 10)
 KMAX = B(8, 12)
-AMAX = B(3, 6)
-TMAX = B(3, 5)
+AMAX = B(2, 4)
+SHAPE_NW = B(1, 2)
+T0MAX = B(2, 3)
+WAITMAX = B(2, 3)
+TMAX = B(2, 3)
+DTMAX = B(2, 4)
+_D_POOL = list(range(9))
+_SMALL = list(range(0, 4))
+_SKEW = list(range(-3, 4))
+_T0_POOL = list(range(1, T0MAX + 1))
+_DT_POOL = list(range(0, DTMAX + 1))
+_EL_POOL = list(range(11))
 
 
 # ---------------------------------------------------------------------------------------------- policy kernel (S)
@@ -133,6 +143,11 @@ def ob_stop_after_delay_iff(d: int, el: int, n: int, k: int, composed: bool) -> 
     pre: 0 <= d <= 8 and 0 <= el <= 10 and 1 <= n <= NMAX and 1 <= k <= KMAX
     post: _
     """
+    # explicit forks: stop_after_delay compares elapsed with float(d); a symbolic int/real mix is inconclusive in CrossHair
+    # (and trips a z3 5.1 lar_solver assertion) — d and elapsed are enumerated by the solver, n and k stay symbolic.
+    # The real-valued statement is ob_stop_after_delay_reals (Engine T).
+    d = pick(_D_POOL, d)
+    el = pick(_EL_POOL, el)
     if composed:
         pol = retry_policy(wait=wait_fixed(0), stop=stop_after_attempt(n) | stop_after_delay(d))
         want = k < max(n, 1) and el < d
@@ -152,19 +167,27 @@ def _handlers(routed: bool):
     return {}, {}
 
 
-@obligation(quick=120, thorough=400,
-            partitions_quick=[f"pol == {p} and routed == {r}" for p in range(3) for r in (False, True)],
-            partitions_thorough=[f"pol == {p} and routed == {r} and nw == {n}" for p in range(3) for r in (False, True) for n in (1, 2)],
+_RP_PARTS_Q = ([f"pol == {p}" for p in (1, 2)] + [f"pol == 0 and routed == {r} and a == {a}" for r in (False, True) for a in range(0, 3)])
+_RP_PARTS_T = ([f"pol == {p} and nw == {n}" for p in (1, 2) for n in (1, 2)]
+               + [f"pol == 0 and routed == {r} and a == {a} and nw == {n}" for r in (False, True) for a in range(0, 5) for n in (1, 2)])
+
+
+@obligation(quick=120, thorough=600, partitions_quick=_RP_PARTS_Q, partitions_thorough=_RP_PARTS_T,
             what="StepWorkerFailed on an in-progress entry with attempts=a: real _reduce_tick calls next(failed_at-first_attempt_at, a+1, exc); "
                  "retry command / StepFailedEvent / WorkflowFailedEvent carry a+1, same first_attempt_at, the exception, the same elapsed",
-            bounds={"a": "0..AMAX", "first_attempt_at": "1..4", "failed_at-first": "0..4", "num_workers": "1..2", "queue": "0..1"})
+            bounds={"a": "0..AMAX", "first_attempt_at": "1..2 (thorough 1..3)", "failed_at-first": "0..DTMAX",
+                    "shape": "quick: 1 worker, empty queue; thorough: num_workers 1..2, second slot busy or not, queue 0..1"})
 def ob_reducer_feeds_policy(nw: int, b1: bool, q: int, wid: int, a: int, t0: int, dt: int, pol: int, routed: bool, rc: int) -> bool:
     """
-    pre: 1 <= nw <= 2 and world_ab_valid(nw, True, b1, False, q) and q <= 1
+    pre: 1 <= nw <= SHAPE_NW and world_ab_valid(nw, True, b1, False, q) and q <= 1
     pre: 0 <= wid <= 1 and (wid == 0 or b1)
-    pre: 0 <= a <= AMAX and 1 <= t0 <= 4 and 0 <= dt <= 4 and 0 <= pol <= 2 and 0 <= rc <= 1
+    pre: 0 <= a <= AMAX and 1 <= t0 <= T0MAX and 0 <= dt <= DTMAX and 0 <= pol <= 2 and 0 <= rc <= 1
     post: _
     """
+    # instants are enumerated by explicit forks (the real StepWorkerFailed is a validated pydantic model: failed_at is a
+    # concrete float there; a symbolic datetime.fromtimestamp is needlessly expensive); the attempt counter stays symbolic
+    t0 = pick(_T0_POOL, t0)
+    dt = pick(_DT_POOL, dt)
     policy = StubPolicy(pol, delay=3)
     hs, hfs = _handlers(routed)
     st = world_ab(nw, True, b1, False, q, att=a, policy=policy, t0=t0, handlers=hs, handler_for_step=hfs, rc=({"h": rc} if routed else None))
@@ -230,10 +253,10 @@ class _ClockAdapter:
 @obligation(quick=120, thorough=400, partitions_quick=[f"delay == {d}" for d in range(3)], partitions_thorough=[f"delay == {d}" for d in range(3)],
             what="the retry command goes through the real runner (process_command -> tick -> reducer -> run_worker): the next invocation "
                  "gets RetryAttempt(retry_number=a+1, same first_attempt_at, the previous exception, last_failed_at) and is not started before now+delay",
-            bounds={"a": "0..AMAX", "t0": "1..3", "dt": "0..3", "delay": "0..2", "wait": "0..3"})
+            bounds={"a": "0..AMAX", "t0": "1..2", "dt": "0..1", "delay": "0..2", "wait": "0..2 (thorough 0..3)"})
 def ob_retry_attempt_number(a: int, t0: int, dt: int, delay: int, wait: int) -> bool:
     """
-    pre: 0 <= a <= AMAX and 1 <= t0 <= 3 and 0 <= dt <= 3 and 0 <= delay <= 2 and 0 <= wait <= 3
+    pre: 0 <= a <= AMAX and 1 <= t0 <= 2 and 0 <= dt <= 1 and 0 <= delay <= 2 and 0 <= wait <= WAITMAX
     post: _
     """
     policy = StubPolicy(2, delay=delay)
@@ -302,25 +325,27 @@ def _clock_chain(ow: int, om: int, t1: int, d_run: int, d_tick: int, d_run2: int
                 return 0 if attempts < 2 else None
 
         pol = Recorder()
-        rt = BasicRuntime()
+        with H.untraced():  # concrete set-up only (class creation, step registry): no symbolic value is touched here
+            rt = BasicRuntime()
 
-        class W(Workflow):
-            @step(retry_policy=pol)
-            async def a(self, ctx: Context, ev: StartEvent) -> StopEvent:
-                if infos:
-                    cell[0] = cell[0] + d_in2  # second run: time passes before retry_info is read
-                hidden_info.append(cell[0])
-                infos.append(ctx.retry_info())
-                cell[0] = cell[0] + (d_run if len(infos) == 1 else d_run2)
-                hidden_fail.append(cell[0])
-                raise ValueError("boom")
+            class W(Workflow):
+                @step(retry_policy=pol)
+                async def a(self, ctx: Context, ev: StartEvent) -> StopEvent:
+                    if infos:
+                        cell[0] = cell[0] + d_in2  # second run: time passes before retry_info is read
+                    hidden_info.append(cell[0])
+                    infos.append(ctx.retry_info())
+                    cell[0] = cell[0] + (d_run if len(infos) == 1 else d_run2)
+                    hidden_fail.append(cell[0])
+                    raise ValueError("boom")
 
-        wf = W(runtime=rt, timeout=None)
-        st = BrokerState.from_workflow(wf)
-        queues = rt._get_or_create_queues("r", st)  # keep the strong reference (WeakValueDictionary)
+            wf = W(runtime=rt, timeout=None)
+            st = BrokerState.from_workflow(wf)
+            queues = rt._get_or_create_queues("r", st)  # keep the strong reference (WeakValueDictionary)
+            workers = as_step_worker_functions(wf)
         with setting_run_id("r"):
             ad = rt.get_internal_adapter(wf)
-            runner = _ControlLoopRunner(wf, ad, None, as_step_worker_functions(wf), st)  # type: ignore[arg-type]
+            runner = _ControlLoopRunner(wf, ad, None, workers, st)  # type: ignore[arg-type]
             hidden_start.append(cell[0])
             drive(runner._process_tick(TickAddEvent(event=StartEvent())))
             tick = drive(runner._pending_workers.pop(0).coro)
@@ -346,18 +371,26 @@ def _clock_chain(ow: int, om: int, t1: int, d_run: int, d_tick: int, d_run2: int
 
 
 @obligation(quick=150, thorough=600,
-            partitions_quick=[f"ow == {w} and om == {m}" for w in (0, 1, 2) for m in (0, 1, 2)],
-            partitions_thorough=[f"ow == {w} and om == {m}" for w in range(0, 4) for m in range(0, 4)],
+            partitions_quick=[f"ow == {w} and t1 == {t}" for w in (0, 1) for t in (1, 2)],
+            partitions_thorough=[f"ow == {w} and t1 == {t} and d_run == {d}" for w in (0, 1, 2) for t in (1, 2) for d in (0, 1, 2)],
             what="elapsed handed to policy.next, reported by retry_info() and by WorkflowFailedEvent equals the difference of hidden instants, "
-                 "for every pair of clock epochs (wall = t+ow, monotonic = t+om); attempts = real execution count; retry numbers 0,1 with the previous exception",
-            bounds={"ow": "0..2 (thorough 0..3)", "om": "0..2 (0..3)", "instants": "t1 1..2, gaps 0..TMAX-1"})
-def ob_clock_consistency(ow: int, om: int, t1: int, d_run: int, d_tick: int, d_run2: int, d_in2: int) -> bool:
+                 "for every pair of clock epochs (wall = t+ow, monotonic = t+ow+skew); attempts = real execution count; retry numbers 0,1 with "
+                 "the previous exception",
+            bounds={"ow": "0..1 (thorough 0..2)", "skew = monotonic epoch - wall epoch": "-1..1 (thorough -2..2)", "t1": "1..2", "gaps": "0..TMAX-1"})
+def ob_clock_consistency(ow: int, skew: int, t1: int, d_run: int, d_tick: int, d_run2: int, d_in2: int) -> bool:
     """
-    pre: 0 <= ow <= 3 and 0 <= om <= 3 and 1 <= t1 <= 2
+    pre: 0 <= ow <= TMAX - 1 and -TMAX + 1 <= skew <= TMAX - 1 and ow + skew >= 0 and 1 <= t1 <= 2
     pre: 0 <= d_run < TMAX and 0 <= d_tick <= 1 and 0 <= d_run2 <= 1 and 0 <= d_in2 < TMAX
     post: _
     """
-    obs = _clock_chain(ow, om, t1, d_run, d_tick, d_run2, d_in2)
+    # every instant crosses a validated pydantic model in the real code (StepWorkerFailed.failed_at, TickAddEvent.first_attempt_at,
+    # WorkflowFailedEvent.elapsed_seconds) and is realised there; enumerate by explicit forks up front instead (one path per
+    # combination, no int/real solver queries)
+    ow = pick(_SMALL, ow)
+    skew = pick(_SKEW, skew)
+    t1 = pick(_SMALL, t1)
+    d_run, d_tick, d_run2, d_in2 = pick(_SMALL, d_run), pick(_SMALL, d_tick), pick(_SMALL, d_run2), pick(_SMALL, d_in2)
+    obs = _clock_chain(ow, ow + skew, t1, d_run, d_tick, d_run2, d_in2)
     if obs is None:
         return False
     calls, infos, failed, h_start, h_fail, h_info = obs
